@@ -15,7 +15,7 @@ def run(tier, seed):
     ck.proof = lib.proof_step('props/C13.v', matchcheck.MATCH_CONE + ['LangFacts.v'])
     ck.broken += ck.proof['broken']
     if not ck.proof['driver_ok']:
-        return ck.finish(rule='driver unavailable')
+        ck.notes['driver'] = 'unavailable: model-side runs skipped, searching with the implementation-side oracles only'
     import soupsieve as sv
     from soupsieve import css_match as cm, css_types as ct
     # (1) the pure filter function: model vs implementation vs RFC 4647, over subtag sequences
